@@ -28,13 +28,15 @@ type subRequest struct {
 }
 
 type recClient struct {
-	name   string
-	inner  federation.ExecutorClient
-	schema *graphql.Schema // the service's own schema (with introspection added, as the server has it)
-	mu     *sync.Mutex
-	log    *[]subRequest
-	hookFn func()
-	gate   func(text string) error // when set: called with the text of every non-introspection request before it is executed; an error is returned to the gateway as the service's failure
+	name    string
+	inner   federation.ExecutorClient
+	schema  *graphql.Schema // the service's own schema (with introspection added, as the server has it)
+	mu      *sync.Mutex
+	log     *[]subRequest
+	hookFn  func()
+	lastBig time.Time
+	bigSeq  int
+	gate    func(text string) error // when set: called with the text of every non-introspection request before it is executed; an error is returned to the gateway as the service's failure
 }
 
 func cloneSS(ss *graphql.SelectionSet) *graphql.SelectionSet {
@@ -167,6 +169,20 @@ func (c *recClient) Execute(ctx context.Context, req *federation.QueryRequest) (
 		c.mu.Unlock()
 		if c.hookFn != nil {
 			c.hookFn()
+		}
+		// large hop requests to one service that arrive together are answered in the reverse order of arrival
+		if len(rec.Text) > 4000 && strings.HasPrefix(rec.Text, "_federation {") {
+			c.mu.Lock()
+			if time.Since(c.lastBig) > 150*time.Millisecond {
+				c.bigSeq = 0
+			}
+			seq := c.bigSeq
+			c.bigSeq++
+			c.lastBig = time.Now()
+			c.mu.Unlock()
+			if seq < 2 {
+				time.Sleep(time.Duration(2-seq) * 12 * time.Millisecond)
+			}
 		}
 		if gate := c.gate; gate != nil {
 			if gerr := gate(rec.Text); gerr != nil {
